@@ -346,6 +346,11 @@ def value_segs(I: Interp, t, tree):
         return [("if", t[1], value_segs(I, t[2], tree), value_segs(I, t[3], tree))]
     if isinstance(t, tuple) and t and t[0] == "ref" and isinstance(I.obj(t), HList):
         return list_content(I, t, tree)
+    if isinstance(t, tuple) and t and t[0] == "ref" and isinstance(I.obj(t), HGen) and I.obj(t).fi is not None:
+        # a generator nobody consumed inside the analysed function: its elements, in production order
+        from .absint import State
+        lst = I.force(t, State(), tree)
+        return list_content(I, lst, tree)
     return [("s", t)]
 
 
